@@ -44,7 +44,7 @@ for p in props:
         "level_note": "Trusted base: the verif hooks in /repo (add-only, cfg-guarded), the harness oracle/model, rustc. Coverage is sampling: seeded generators, schedule perturbation, stretched sites and directed gates; unobserved interleavings and inputs are not covered. Required observations (a run that misses one is INCONCLUSIVE, not a pass): " + ", ".join(pl["require"][:8]) + ". " + "; ".join(pl["assumptions"][:3]),
     })
 m["checks"] = checks
-m["hooks"]["source_commits"] = ["a2ceb03", "1bc4573", "aa630dd"]
+m["hooks"]["source_commits"] = ["a2ceb03", "1bc4573", "aa630dd", "462e88e"]
 m["not_applicable"] = []
 json.dump(m, open(os.path.join(ROOT, "MANIFEST.json"), "w"), indent=1)
 print("checks:", len(checks))
